@@ -81,6 +81,8 @@ class Tracker:
                 self.term_requested = self.term_requested | {k}
             else:
                 self.interrupters = self.interrupters | {k}
+                if self.section_nr:
+                    self.nonresumable_seen = True      # requested inside the section (it may take effect later, even after the plan is over)
         elif kind in ("plan-yield", "replay-yield") and a[1].command == "clear_checkpoint":
             self.section_nr = True
         elif kind in ("plan-yield", "replay-yield") and a[1].command == "checkpoint":
